@@ -1,13 +1,15 @@
 (* One entry point for the OCaml runner: op name and byte-string arguments
    in, (result bytes, tag text) out.  All structure is decoded here, in Coq. *)
 From Coq Require Import NArith ZArith List Bool String.
-From GJ Require Import Base.Bytes Base.Show Model.Int Model.StrEnc Model.StrDec Model.Compact Model.Iface Model.Path Model.KeyBitmap Spec.Json Gen.Resets Model.Mem Base.TypeAddrBase Gen.TypeAddr Model.TypeCache Model.Stream Model.StreamInst Model.Enc Model.EncIndent Gen.Query Model.Query Model.Decode Model.EncTyped Model.Skip Model.PathEval Model.PathTags Gen.SliceShape Model.SlicePool Model.FieldRes Model.Cycle Gen.Tables Model.Layout Model.EncColor Model.Base64.
+From GJ Require Import Base.Bytes Base.Show Model.Int Model.StrEnc Model.StrDec Model.Compact Model.Iface Model.Path Model.KeyBitmap Spec.Json Gen.Resets Model.Mem Base.TypeAddrBase Gen.TypeAddr Model.TypeCache Model.Stream Model.StreamInst Model.Enc Model.EncIndent Gen.Query Model.Query Model.Decode Model.EncTyped Model.Skip Model.PathEval Model.PathTags Gen.SliceShape Model.SlicePool Model.FieldRes Model.Cycle Gen.Tables Model.Layout Model.EncColor Model.Base64 Model.Emptiness Gen.Twins.
 Import ListNotations.
 Open Scope N_scope.
 Open Scope string_scope.
 Open Scope list_scope.
 
 Definition arg (n : nat) (args : list (list N)) : list N := nth n args [].
+Fixpoint bytes_to_string (l : list N) : string :=
+  match l with [] => EmptyString | c :: r => String (Ascii.ascii_of_N c) (bytes_to_string r) end.
 
 Definition show_ures (r : ures) : list N * list N :=
   match r with
@@ -284,4 +286,14 @@ Definition dispatch (op : list N) (args : list (list N)) : list N * list N :=
   else if list_eqb op (str "c04.b64dec") then
     (* what Unmarshal into []byte stores for the string with these contents: O<bytes> or E *)
     (match b64dec (arg 0 args) with Some bs => 79 :: bs | None => [69] end, [])
+  else if list_eqb op (str "c01.omits") then
+    (* omitempty on a member whose type implements a marshaler interface. arg 0: the kind's name; arg 1: one character
+       per observation ('1' / '0'): first member, truth, num_zero, bits_zero, is_nil, len_zero *)
+    (let f := arg 1 args in
+     let b := fun k : nat => N.eqb (nth k f 0%N) 49%N in
+     let pos := if b 0%nat then First else Later in
+     let v := {| kind := bytes_to_string (arg 0 args); truth := b 1%nat; num_zero := b 2%nat; bits_zero := b 3%nat; is_nil := b 4%nat; len_zero := b 5%nat |} in
+     (match impl_omits marshaler_field_empty_rules omitempty_marshaler_head_skips_nil_pointer omitempty_marshaler_field_skips_nil_pointer pos v with
+      | Some true => str "omitted" | Some false => str "kept" | None => str "unknown-rule" end,
+      if named_exception pos v then str "OmitemptyNilFuncOrChanMarshaler" else []))
   else (str "no-model", []).
